@@ -58,7 +58,7 @@ class Session(object):
     """
 
     def __init__(self, commands, events=(), chunking=(1 << 30,), boot=True,
-                 password_function=None, proto=None, cuts=None):
+                 password_function=None, proto=None, cuts=None, boot_in_run=False):
         from txtorcon import TorControlProtocol
         self.clock = wire.LClock()
         self.aud = audit.Auditor(self.clock)
@@ -70,12 +70,14 @@ class Session(object):
         self.cuts = sorted(set(cuts)) if cuts is not None else None   # absolute post-boot offsets
         self.chunks = []                # (start, end) absolute offsets of every delivered chunk
         self.boot = boot
+        self.boot_in_run = boot_in_run  # deliver the bootstrap bytes under the schedule too (C03)
         # server state
         self._rx = b""
         self.server_lines = []          # complete command lines received (bytes, no CRLF)
         self.script = []                # boot replies, by position
         self.replies = {}               # command line (bytes) -> (code, parts); lines are unique
         self.reply_for_line = []        # what the server answered, in order
+        self.items = []                 # stream items in order: (kind, index, n_lines)
         self.reply_ends = []            # absolute stream offset at which reply n ends
         self.out = b""                  # whole server stream produced so far
         self.delivered = 0              # bytes of self.out delivered
@@ -118,16 +120,22 @@ class Session(object):
             self.unscripted += 1
             rep = (250, [("end", "OK")])
         code, parts = rep
-        self.out += R.encode(code, parts)
+        enc = R.encode(code, parts)
+        self.out += enc
+        self.items.append(("reply", n, enc.count(b"\r\n")))
         self.reply_ends.append(len(self.out))
         self.reply_for_line.append((line, code, parts))
         k = n - self._n_boot
-        for ev in self.events:
+        for j, ev in enumerate(self.events):
             if ev.get("after") == k and not ev.get("_queued"):
-                ev["_queued"] = True
-                ev["_start"] = len(self.out)
-                self.out += ev["bytes"]
-                ev["_end"] = len(self.out)
+                self._queue_event(j, ev)
+
+    def _queue_event(self, j, ev):
+        ev["_queued"] = True
+        ev["_start"] = len(self.out)
+        self.out += ev["bytes"]
+        ev["_end"] = len(self.out)
+        self.items.append(("event", j, ev["bytes"].count(b"\r\n")))
 
     # ------------------------------------------------------------------ driving
     def start(self):
@@ -142,21 +150,20 @@ class Session(object):
         except Exception as e:
             self.exceptions.append(("boot", -1, repr(e)))
             self.boot_failed = True
-        if self.boot:
+        if self.boot and self.boot_in_run:
+            pass
+        elif self.boot:
             self._pump_all()
             self.boot_writes = len(self.transport.writes)
             if not self.proto.post_bootstrap.called:
                 # the protocol's own bootstrap commands got well-formed replies and
                 # still did not complete: reported by the property modules
                 self.boot_failed = True
-        self.post_boot_offset = len(self.out)
+        self.post_boot_offset = 0 if self.boot_in_run else len(self.out)
         self.post_boot_rx = len(self.server_lines)
-        for ev in self.events:
+        for j, ev in enumerate(self.events):
             if ev.get("after") == -1:
-                ev["_queued"] = True
-                ev["_start"] = len(self.out)
-                self.out += ev["bytes"]
-                ev["_end"] = len(self.out)
+                self._queue_event(j, ev)
         self.stage = "run"
 
     def _pump_all(self):
